@@ -210,6 +210,11 @@ class Pipeline:
 
     def step(self, inputs: dict, sampled: dict | None = None) -> dict:
         """One Engine.process(). `sampled[out]` = (xs, ys) sample vectors of the implementation (optional)."""
+        inputs = dict(inputs)
+        for name, v in self.ins.items():
+            x = inputs[name]
+            if v.get("lock_range") and x == x:  # the value setter clips when lock-range is on (NaN stays NaN)
+                inputs[name] = min(max(x, v["min"]), v["max"])
         fuzzy = {name: [] for name in self.outs}
         trace = {"degrees": {}, "triggered": {}, "fuzzy": fuzzy, "values": {}, "raw": {}}
         for block in self.recipe["blocks"]:
